@@ -481,7 +481,7 @@ pub fn line_starts(text: &str) -> Vec<usize> {
 
 const BLOCK_WORDS: &[&str] = &[
     "", "c", " note ", " x < y > z ", " #define N 1 ", " \"quoted ", " it's ", " // nested ", " /* open ", " ; } ", " int a = 1; ", " \u{e9}\u{2192} ", "*", " F(x) ",
-    " #include <q> ",
+    " #include <q> ", "/", "/ x ", "// x ", "/ /* y ", "**", " *", "/ 100 + ",
 ];
 /// Comment texts of the position monitor: no quotes / angle brackets (rssl words an unterminated string or header name
 /// differently depending on whether a closing character exists anywhere later in the file)
